@@ -631,6 +631,42 @@ LEN_TYPES = {
 FIXED = {"Int8": (">b", 1), "Int16": (">h", 2), "Int32": (">i", 4), "UInt32": (">I", 4), "Int64": (">q", 8), "Float64": (">d", 8), "Boolean": (">?", 1)}
 
 
+def rule_nested_fresh(ctx, R="builders"):
+    """Request builders that assemble nested arrays themselves (per topic: a list of partition tuples): the inner list is created anew for
+    every element of the outer loop.  One list created before the outer loop would be shared by all topics -- each topic entry would carry
+    the partitions of every topic."""
+    n = 0
+    for q, fi in sorted(ctx.repo.funcs.items()):
+        if not (q.startswith("aiokafka.protocol.") and fi.name == "build"):
+            continue
+        for outer in [x for x in ast.walk(fi.node) if isinstance(x, ast.For)]:
+            for inner in [x for st in outer.body for x in ast.walk(st) if isinstance(x, ast.For)]:
+                accs = {unparse(c_.func.value) for st in inner.body for c_ in ast.walk(st)
+                        if isinstance(c_, ast.Call) and isinstance(c_.func, ast.Attribute) and c_.func.attr in ("append", "extend") and isinstance(c_.func.value, ast.Name)}
+                for acc in accs:
+                    # consumed by the outer iteration (attached to the outer element) after the inner loop
+                    used = any(isinstance(x, ast.Name) and x.id == acc and isinstance(x.ctx, ast.Load) for st in outer.body if st is not inner and not any(y is inner for y in ast.walk(st))
+                               for x in ast.walk(st) if not (isinstance(getattr(x, "_parent", None), ast.Attribute)))
+                    if not used:
+                        continue
+                    n += 1
+                    fresh = any(isinstance(st, (ast.Assign, ast.AnnAssign)) and any(isinstance(t, ast.Name) and t.id == acc for t in (st.targets if isinstance(st, ast.Assign) else [st.target])
+                                                                                   for t in ([t] if not isinstance(t, ast.Tuple) else t.elts))
+                                for st in outer.body)
+                    ctx.ob(R, fi, outer, fresh, f"`{acc}` collects the inner elements of every `{unparse(outer.target)}` but is created outside the loop over `{unparse(outer.iter)[:30]}`: all outer "
+                                                f"entries share one list (each topic is sent the partitions of every topic)", text=f"nested-list-fresh:{acc}")
+    ctx.anchor(n >= 1, f"builders assembling nested arrays ({n})")
+
+
+def _rest_terms(e):
+    """Terms after the first of a left-nested `a + b + c` concatenation."""
+    out = []
+    while isinstance(e, ast.BinOp) and isinstance(e.op, ast.Add):
+        out.insert(0, e.right)
+        e = e.left
+    return out
+
+
 def rule_codec_symmetry(ctx):
     R = "codec-symmetry"
     ctx.rep.rule(R, "primitive codecs of protocol/types.py agree with themselves: fixed-width types pack and unpack with one struct format and "
@@ -681,6 +717,14 @@ def rule_codec_symmetry(ctx):
                 has_bias = base is not a
                 if has_bias != bool(bias) or not (isinstance(base, ast.Call) and unparse(base.func) == "len"):
                     good = False
+                elif "Array" not in name:
+                    # the prefix counts the BYTES that follow: len() is taken of the very object that is appended (for a string, the encoded
+                    # bytes, not the characters)
+                    rest = _rest_terms(r.ast.value)
+                    same = len(rest) == 1 and len(base.args) == 1 and unparse(base.args[0]) == unparse(rest[0])
+                    ctx.ob(R, fe, r, same, f"{name}.encode: the length prefix is len({unparse(base.args[0]) if base.args else '?'}) but the payload written is "
+                                           f"`{' + '.join(unparse(x)[:30] for x in rest)}`: for non-ASCII text characters and bytes differ, and the reader takes the surplus for the next field",
+                           text="prefix-counts-payload")
         ctx.ob(R, fe, fe.node, good and nulls == 1 and lens == 1, f"{name}.encode does not write its prefix as {lt}.encode(len{'+1' if bias else ''}) / null {'0' if bias else '-1'} on every path (a hand-rolled prefix cannot be shown to match the reader)", text="encode-length")
         # null test on the decode side
         nt = [t for t in cd.nodes if t.kind == "test" and isinstance(t.ast, ast.Compare) and unparse(t.ast.left) == "length"]
@@ -746,10 +790,13 @@ def run(ctx):
     rule_conn_published_ready(ctx)
     rule_builders(ctx)
     rule_nested(ctx)
+    rule_nested_fresh(ctx)
     rule_evolution(ctx)
     rule_layout(ctx)
     rule_codec_symmetry(ctx)
     c12.rule_queue(ctx)
     c12.rule_one_stream(ctx, "pairing")
+    from .common import rule_instance_state
+    rule_instance_state(ctx, ("aiokafka.protocol.types.", "aiokafka.protocol.api.", "aiokafka.conn.",))
     rep.nd("value-level round-trip for all field values (integer extremes, varint boundaries): the varint arithmetic of UnsignedVarInt32 is not decided")
     rep.nd("VarInt32 / VarInt64 are not reachable from any schema; their (known) defects are not alarmed")
